@@ -972,6 +972,46 @@ pub fn run(ctx: &mut Ctx) -> Result<(), Violation> {
     });
     ctx.stage("random-option-subsets", false, r)?;
 
+    // formulas in which one name is free, bound by a quantifier and bound by a fixed point (the scoping
+    // generator of C06): the header must list exactly the free names, also under an ordering file
+    let cases = ctx.tier.cases(600, 30_000);
+    let r = par_random(ctx, "shadowing-formulas", cases, 260, |tape, st| {
+        let mut t = Tape::new(tape);
+        let mut cfg = Cfg::standard(3, 2 + t.choose(4));
+        cfg.names = vec!["a".into(), "b".into(), "X".into()];
+        cfg.fix_names = vec!["X".into(), "a".into(), "b".into()];
+        cfg.max_fix_nest = 3;
+        cfg.max_list = 2;
+        cfg.big_consts = false;
+        let ast = gen::formula(&mut t, &cfg);
+        if !crate::props::c01::has_shadowing(&ast, &mut Vec::new()) || !gen::syntactically_monotone(&ast) {
+            st.discarded += 1;
+            return Ok(());
+        }
+        let text = rprint::plain(&ast);
+        let mut idents = Vec::new();
+        ast.names_in_order(&mut idents);
+        let ordering_file = if t.flag() {
+            let (names, _) = gen_ordering_names(&idents, &mut t);
+            Some(render_ordering(&names, &mut t))
+        } else {
+            None
+        };
+        let inv = Invocation {
+            text: text.clone(),
+            channel: ["arg", "file", "stdin"][t.choose(3)].to_string(),
+            ordering_file,
+            flags: if t.flag() { vec!["-t".into(), "-v".into()] } else { vec!["-t".into(), "-r".into()] },
+        };
+        st.eval();
+        st.class(if ast.has_fix() { "shadowing:with-fixed-point" } else { "shadowing:quantifiers-only" });
+        if st.nontrivial(fnv_str(&inv.to_json().to_string())) {
+            st.nt_sample(|| inv.to_json());
+        }
+        check_invocation(&inv).map(|_| ())
+    });
+    ctx.stage("shadowing-formulas-x-table-and-vars", false, r)?;
+
     // wide formulas: up to 200 free variables, judged by counting instead of a truth table
     let cases = ctx.tier.cases(1_500, 40_000);
     let r = par_random(ctx, "wide-formulas", cases, 260, |tape, st| {
